@@ -858,7 +858,10 @@ impl BigDecimal {
             // the terms of the series alternate in sign for negative values,
             // cancelling the significant digits: use e^-x = 1/e^x
             let ctx = Context::default().with_rounding_mode(RoundingMode::HalfUp);
-            return self.abs().exp_series(target_precision).inverse_with_context(&ctx);
+            // (the reciprocal of a power of ten, or one whose rounding carried into a new
+            //  digit, comes back with more than the requested digits: trim it like the
+            //  positive branch does)
+            return self.abs().exp_series(target_precision).inverse_with_context(&ctx).with_prec(target_precision);
         }
 
         self.exp_series(target_precision).with_prec(target_precision)
